@@ -505,6 +505,39 @@ func c09(r *core.Run) {
 				}
 			}
 			r.Check(bad == "", "S3", core.FuncName(f2), "covering-test-not-prefiltered", p.InstrPos(c), "every other pattern is tested with Pattern.Matches (only index conditions guard the test)", "the covering test is skipped depending on the patterns' text ("+bad+"): a pattern covered by one that the pre-filter excludes (e.g. a placeholder pattern) is subscribed redundantly and its requests are delivered twice")
+			// ... and "every other pattern" means the whole list: the covering pattern is an element of
+			// the list itself, not of a prefix / suffix of it (patterns[:i] misses a broader pattern that
+			// is listed after the narrower one)
+			{
+				var elemOf func(v ssa.Value, d int) ssa.Value
+				elemOf = func(v ssa.Value, d int) ssa.Value {
+					if d > 5 {
+						return nil
+					}
+					switch x := v.(type) {
+					case *ssa.ChangeType:
+						return elemOf(x.X, d+1)
+					case *ssa.Convert:
+						return elemOf(x.X, d+1)
+					case *ssa.UnOp:
+						if ia, ok := x.X.(*ssa.IndexAddr); ok {
+							return ia.X
+						}
+					case *ssa.Index:
+						return x.X
+					}
+					return nil
+				}
+				partial := ""
+				for _, a := range c.Common().Args {
+					if base := elemOf(a, 0); base != nil {
+						if sl, ok := base.(*ssa.Slice); ok && (sl.Low != nil || sl.High != nil) {
+							partial = valDesc(base)
+						}
+					}
+				}
+				r.Check(partial == "", "S3", core.FuncName(f2), "covering-test-ranges-over-the-whole-list", p.InstrPos(c), "the candidates for covering a pattern are all patterns of the list", "the covering test looks only at a part of the pattern list ("+partial+"): a pattern covered by one that is listed on the other side of it is subscribed as well, and its requests are delivered - and answered - twice")
+			}
 		}
 	}
 	for i, ss := range sites {
@@ -1148,6 +1181,14 @@ func coveringRule(r *core.Run, rule string) {
 			}
 		}
 	}
+	for _, f2 := range p.Helpers(sub) {
+		for _, c := range core.Calls(f2) {
+			if cal := c.Common().StaticCallee(); cal != nil && cal.Name() == "Matches" && cal.Signature.Recv() != nil && core.TypeName(cal.Signature.Recv().Type()) == "Pattern" {
+				partial := coveringOverWholeList(c)
+				r.Check(partial == "", rule, core.FuncName(f2), "covering-test-ranges-over-the-whole-list", p.InstrPos(c), "the candidates for covering a subject are all subjects of the list", "the covering test looks only at a part of the pattern list ("+partial+"): a narrower pattern listed before the broader one that covers it is subscribed as well - its requests are delivered twice, the handler runs twice and two replies go out")
+			}
+		}
+	}
 	if n == 0 {
 		r.Bad(rule, core.FuncName(sub), "has-resource-subscriptions", p.Pos(sub.Pos()), "no get/call/auth subscription site found (rule went vacuous)")
 	}
@@ -1347,4 +1388,36 @@ func onlyMergedOrMeasured(v ssa.Value, depth int) bool {
 		}
 	}
 	return true
+}
+
+// coveringOverWholeList: the arguments of a covering test (Pattern.Matches)
+// are elements of the pattern list itself, not of a prefix / suffix of it.
+func coveringOverWholeList(c ssa.CallInstruction) string {
+	var elemOf func(v ssa.Value, d int) ssa.Value
+	elemOf = func(v ssa.Value, d int) ssa.Value {
+		if d > 5 {
+			return nil
+		}
+		switch x := v.(type) {
+		case *ssa.ChangeType:
+			return elemOf(x.X, d+1)
+		case *ssa.Convert:
+			return elemOf(x.X, d+1)
+		case *ssa.UnOp:
+			if ia, ok := x.X.(*ssa.IndexAddr); ok {
+				return ia.X
+			}
+		case *ssa.Index:
+			return x.X
+		}
+		return nil
+	}
+	for _, a := range c.Common().Args {
+		if base := elemOf(a, 0); base != nil {
+			if sl, ok := base.(*ssa.Slice); ok && (sl.Low != nil || sl.High != nil) {
+				return valDesc(base)
+			}
+		}
+	}
+	return ""
 }
